@@ -142,12 +142,46 @@ const (
 	ns2036  = int64(2085978496) * sec
 )
 
+// cornerRates: the corners of "all clock rates". 0 is a legal StreamInfo.ClockRate (a local
+// stream bound before its codec parameters are known): the report must then carry the
+// reference timestamp unchanged (elapsed * 0). The others sit next to values a default or a
+// clamp would pick (2, 3, 2^16, 2^31 +- 1, 2^32 - 2, 90000 +- 1).
+var cornerRates = []uint32{0, 0, 0, 0, 2, 3, 65536, 0x7FFFFFFF, 0x80000000, 0xFFFFFFFE, 89999, 90001}
+
 func pickRate(r *rand.Rand) uint32 {
-	if r.Intn(6) == 0 {
+	switch x := r.Intn(12); {
+	case x < 2:
 		return r.Uint32()
+	case x < 4:
+		return cornerRates[r.Intn(len(cornerRates))]
 	}
 
 	return rates[r.Intn(len(rates))]
+}
+
+func rateBucket(rate uint32) string {
+	switch rate {
+	case 0, 1, 8000, 48000, 90000, 0xFFFFFFFF:
+		return fmt.Sprintf("rate-%d", rate)
+	}
+	for _, c := range cornerRates {
+		if rate == c {
+			return "rate-corner"
+		}
+	}
+
+	return "rate-other"
+}
+
+// tsStepFor: timestamp increment per frame for a clock rate; a rate below the frame rate
+// (0, 1, 2, 3 ...) would freeze the timestamp, so mostly pick an arbitrary step there.
+func tsStepFor(r *rand.Rand, rate, fps uint32) uint32 {
+	st := rate / fps
+	if st == 0 && r.Intn(4) != 0 {
+		st = uint32(1 + r.Intn(6000))
+	}
+
+	return st
 }
 
 func pickTS(r *rand.Rand) (uint32, string) {
@@ -189,12 +223,7 @@ func pickLen(r *rand.Rand) int {
 // reordered sends, duplicate sends, clock steps, reports anywhere.
 func genCore(r *rand.Rand) (*coreCase, []string) {
 	c := &coreCase{Rate: pickRate(r), UL: r.Intn(3) == 0}
-	rb := "rate-other"
-	switch c.Rate {
-	case 1, 8000, 48000, 90000, 0xFFFFFFFF:
-		rb = fmt.Sprintf("rate-%d", c.Rate)
-	}
-	b := []string{rb}
+	b := []string{rateBucket(c.Rate)}
 	if c.UL {
 		b = append(b, "use-latest")
 	}
@@ -206,7 +235,7 @@ func genCore(r *rand.Rand) (*coreCase, []string) {
 	ts, tb := pickTS(r)
 	seq, sb := pickSeq(r)
 	b = append(b, tb, sb)
-	tsStep := uint32(c.Rate / 30)
+	tsStep := tsStepFor(r, c.Rate, 30)
 	if r.Intn(4) == 0 {
 		tsStep = r.Uint32() >> uint(r.Intn(32))
 	}
@@ -276,7 +305,22 @@ func genCore(r *rand.Rand) (*coreCase, []string) {
 		}
 	}
 	flush()
-	now += int64(r.Intn(3000)) * ms
+	switch r.Intn(6) {
+	case 0: // a report at the very instant of the last send (elapsed 0 when that send set the reference)
+		for i := len(c.Ops) - 1; i >= 0; i-- {
+			if c.Ops[i].K == "rtp" {
+				now = c.Ops[i].Now
+
+				break
+			}
+		}
+		b = append(b, "report-at-last-send-instant")
+	case 1: // long after: minutes .. days (the advance wraps 2^32 for audio/video rates)
+		now += int64(1+r.Intn(5000)) * 60 * sec
+		b = append(b, "report-long-after")
+	default:
+		now += int64(r.Intn(3000)) * ms
+	}
 	c.Ops = append(c.Ops, coreOp{K: "rep", Now: now})
 	b = append(b, []string{"inorder", "reordered", "dups", "seq-jumps", "reordered", "ts-back"}[mode])
 
@@ -324,11 +368,11 @@ func genCountWrap(r *rand.Rand) (*coreCase, []string) {
 // reference that the negative product wraps 2^32 several times.
 func genBackClock(r *rand.Rand) (*coreCase, []string) {
 	c := &coreCase{Rate: pickRate(r), UL: r.Intn(3) == 0}
-	b := []string{"nonmonotone-clock"}
+	b := []string{"nonmonotone-clock", rateBucket(c.Rate)}
 	now := recent + r.Int63n(100000000)*ms
 	ts, _ := pickTS(r)
 	seq, _ := pickSeq(r)
-	step := uint32(c.Rate / 50)
+	step := tsStepFor(r, c.Rate, 50)
 	k := 1 + r.Intn(6)
 	for i := 0; i < k; i++ {
 		c.Ops = append(c.Ops, coreOp{K: "rtp", Now: now, Seq: seq, TS: ts, Len: pickLen(r)})
@@ -515,7 +559,82 @@ type apiOp struct {
 	Marker bool   `json:"marker,omitempty"`
 	CSRC   int    `json:"csrc,omitempty"`
 	Ext    bool   `json:"ext,omitempty"`
+	// StreamInfo variety (bind): irrelevant to the specification - a sender report depends on
+	// SSRC and ClockRate only - but not to the wiring in BindLocalStream
+	Mime string `json:"mime,omitempty"`
+	PT   uint8  `json:"pt,omitempty"`
+	Chan uint16 `json:"chan,omitempty"`
+	Fmtp string `json:"fmtp,omitempty"`
+	FB   int    `json:"fb,omitempty"`   // number of RTCPFeedback entries
+	HExt int    `json:"hext,omitempty"` // number of RTPHeaderExtensions
+	RTX  uint32 `json:"rtx,omitempty"`  // SSRCRetransmission (PayloadTypeRetransmission = PT+1)
+	FEC  uint32 `json:"fec,omitempty"`  // SSRCForwardErrorCorrection (PayloadTypeForwardErrorCorrection = PT+2)
+	ID   string `json:"id,omitempty"`
 	Reps []apiRep `json:"reps,omitempty"`
+}
+
+var mimes = []string{"", "video/VP8", "video/H264", "video/AV1", "audio/opus", "audio/PCMU", "audio/G722",
+	"video/rtx", "video/flexfec-03", "application/octet-stream"}
+
+var feedbacks = []interceptor.RTCPFeedback{{Type: "nack"}, {Type: "nack", Parameter: "pli"},
+	{Type: "transport-cc"}, {Type: "goog-remb"}, {Type: "ccm", Parameter: "fir"}}
+
+// infoVariety fills the StreamInfo fields a sender report must not depend on, drawn
+// independently of the clock rate (audio MIME types with video rates and vice versa, rate 0
+// with and without a MIME type).
+func infoVariety(r *rand.Rand, op *apiOp) {
+	if r.Intn(4) == 0 {
+		return // bare StreamInfo{SSRC, ClockRate}
+	}
+	op.Mime = mimes[r.Intn(len(mimes))]
+	op.PT = uint8(r.Intn(128))
+	if r.Intn(2) == 0 {
+		op.Chan = uint16(r.Intn(3))
+	}
+	if r.Intn(3) == 0 {
+		op.Fmtp = []string{"minptime=10;useinbandfec=1", "level-asymmetry-allowed=1;packetization-mode=1;profile-level-id=42e01f", "apt=96"}[r.Intn(3)]
+	}
+	if r.Intn(2) == 0 {
+		op.FB = 1 + r.Intn(len(feedbacks))
+	}
+	if r.Intn(2) == 0 {
+		op.HExt = 1 + r.Intn(4)
+	}
+	if r.Intn(4) == 0 {
+		op.RTX = r.Uint32()
+	}
+	if r.Intn(4) == 0 {
+		op.FEC = r.Uint32()
+	}
+	if r.Intn(2) == 0 {
+		op.ID = []string{"video", "audio", "a", ""}[r.Intn(4)]
+	}
+}
+
+func mkInfo(op *apiOp) *interceptor.StreamInfo {
+	info := &interceptor.StreamInfo{
+		SSRC: op.SSRC, ClockRate: op.Rate,
+		ID: op.ID, MimeType: op.Mime, PayloadType: op.PT, Channels: op.Chan, SDPFmtpLine: op.Fmtp,
+		SSRCRetransmission: op.RTX, SSRCForwardErrorCorrection: op.FEC,
+	}
+	if op.RTX != 0 {
+		info.PayloadTypeRetransmission = op.PT + 1
+	}
+	if op.FEC != 0 {
+		info.PayloadTypeForwardErrorCorrection = op.PT + 2
+	}
+	for i := 0; i < op.FB && i < len(feedbacks); i++ {
+		info.RTCPFeedback = append(info.RTCPFeedback, feedbacks[i])
+	}
+	for i := 0; i < op.HExt; i++ {
+		info.RTPHeaderExtensions = append(info.RTPHeaderExtensions,
+			interceptor.RTPHeaderExtension{URI: fmt.Sprintf("urn:verif:ext:%d", i), ID: 1 + i})
+	}
+	if op.Mime != "" {
+		info.Attributes = interceptor.Attributes{}
+	}
+
+	return info
 }
 
 type apiCase struct {
@@ -574,7 +693,7 @@ func runAPI(c *apiCase) error {
 		op := &c.Ops[i]
 		switch op.K {
 		case "bind":
-			info := &interceptor.StreamInfo{SSRC: op.SSRC, ClockRate: op.Rate}
+			info := mkInfo(op)
 			infos[op.SSRC] = info
 			writers[op.SSRC] = ic.BindLocalStream(info, interceptor.RTPWriterFunc(
 				func(*rtp.Header, []byte, interceptor.Attributes) (int, error) { return 0, nil }))
@@ -655,7 +774,7 @@ func (c *apiCase) toCase(buckets ...string) cq.Case {
 func genAPI(r *rand.Rand) (*apiCase, []string) {
 	c := &apiCase{UL: r.Intn(3) == 0}
 	b := []string{}
-	ssrcs := []uint32{1, 7, 0xFFFFFFFF, 0x80000000}
+	ssrcs := []uint32{1, 7, 0xFFFFFFFF, 0x80000000, 0}
 	r.Shuffle(len(ssrcs), func(i, j int) { ssrcs[i], ssrcs[j] = ssrcs[j], ssrcs[i] })
 	ns := 1 + r.Intn(3)
 	type st struct {
@@ -681,11 +800,17 @@ func genAPI(r *rand.Rand) (*apiCase, []string) {
 				b = append(b, "rebind")
 			}
 			rate := pickRate(r)
-			c.Ops = append(c.Ops, apiOp{K: "bind", SSRC: ssrcs[k], Rate: rate})
+			bop := apiOp{K: "bind", SSRC: ssrcs[k], Rate: rate}
+			infoVariety(r, &bop)
+			c.Ops = append(c.Ops, bop)
+			b = append(b, rateBucket(rate))
+			if ssrcs[k] == 0 {
+				b = append(b, "ssrc-0")
+			}
 			s.bound = true
 			s.seq, _ = pickSeq(r)
 			s.ts, _ = pickTS(r)
-			s.step = rate / 50
+			s.step = tsStepFor(r, rate, 50)
 		case x == 1:
 			c.Ops = append(c.Ops, apiOp{K: "unbind", SSRC: ssrcs[k]})
 			s.bound = false
@@ -717,6 +842,118 @@ func genAPI(r *rand.Rand) (*apiCase, []string) {
 		}
 	}
 	c.Ops = append(c.Ops, apiOp{K: "tick", Now: now})
+	b = append(b, fmt.Sprintf("streams-%d", ns))
+	if c.UL {
+		b = append(b, "use-latest")
+	}
+
+	return c, dedup(b)
+}
+
+// genAPIRates: the clock-rate dimension through the real BindLocalStream wiring. 2..4 local
+// streams on ONE interceptor, bound with different rates - one of them 0 in most cases, the
+// others corners or ordinary rates - all fed the SAME packets at the same instants, then ticks
+// placed at the last send instant, ns / us / ms / 1 s / 2 s / minutes / hours after it (and
+// sometimes before it: a clock that stepped back), a rebind of one stream with another rate
+// (0 <-> non-zero) and more packets. Whatever the wiring does to the rate it was given
+// (default for 0, clamp, rate of another stream, rate of an earlier bind) shows in the RTP
+// time of that stream's report: the oracle extrapolates with the rate of the bind op.
+func genAPIRates(r *rand.Rand) (*apiCase, []string) {
+	c := &apiCase{UL: r.Intn(3) == 0}
+	b := []string{"rate-family"}
+	ssrcs := []uint32{1, 2, 7, 0xFFFFFFFF, 0x80000000, 0}
+	r.Shuffle(len(ssrcs), func(i, j int) { ssrcs[i], ssrcs[j] = ssrcs[j], ssrcs[i] })
+	ns := 2 + r.Intn(3)
+	rts := make([]uint32, ns)
+	for k := range rts {
+		rts[k] = pickRate(r)
+		if r.Intn(3) == 0 {
+			rts[k] = cornerRates[r.Intn(len(cornerRates))]
+		}
+	}
+	if r.Intn(4) != 0 {
+		rts[r.Intn(ns)] = 0
+	}
+	bind := func(k int) {
+		bop := apiOp{K: "bind", SSRC: ssrcs[k], Rate: rts[k]}
+		infoVariety(r, &bop)
+		c.Ops = append(c.Ops, bop)
+		b = append(b, rateBucket(rts[k]))
+		if ssrcs[k] == 0 {
+			b = append(b, "ssrc-0")
+		}
+	}
+	for k := 0; k < ns; k++ {
+		bind(k)
+	}
+	now := recent + r.Int63n(1000000)*ms
+	seq, _ := pickSeq(r)
+	ts, _ := pickTS(r)
+	step := uint32(1 + r.Intn(6000))
+	send := func(frames int) {
+		for f := 0; f < frames; f++ {
+			for p := 1 + r.Intn(3); p > 0; p-- {
+				ln := pickLen(r)
+				for k := 0; k < ns; k++ {
+					c.Ops = append(c.Ops, apiOp{K: "write", SSRC: ssrcs[k], Now: now, Seq: seq, TS: ts, Len: ln})
+				}
+				seq++
+				if r.Intn(2) == 0 {
+					now += int64(r.Intn(5)) * ms
+				}
+			}
+			ts += step
+			now += int64(r.Intn(40)) * ms
+		}
+	}
+	ticks := func(m int) {
+		for i := 0; i < m; i++ {
+			switch r.Intn(10) {
+			case 0:
+				b = append(b, "tick-at-last-send-instant")
+			case 1:
+				now += 1 + int64(r.Intn(3))
+				b = append(b, "tick-ns-after")
+			case 2:
+				now += int64(1+r.Intn(999)) * 1000
+			case 3:
+				now += sec
+			case 4:
+				now += 2 * sec
+			case 5:
+				now += int64(1+r.Intn(120)) * 60 * sec
+				b = append(b, "tick-minutes-after")
+			case 6:
+				now += int64(1+r.Intn(96)) * 3600 * sec
+				b = append(b, "tick-hours-after")
+			case 7: // the clock stepped back: a tick before the reference instant, then forward again
+				back := int64(1+r.Intn(5000)) * ms
+				c.Ops = append(c.Ops, apiOp{K: "tick", Now: now - back})
+				b = append(b, "tick-before-reference")
+				now += int64(r.Intn(1000)) * ms
+			default:
+				now += int64(1+r.Intn(5000)) * ms
+			}
+			c.Ops = append(c.Ops, apiOp{K: "tick", Now: now})
+		}
+	}
+	send(1 + r.Intn(4))
+	ticks(1 + r.Intn(3))
+	if r.Intn(2) == 0 { // rebind one stream with another rate: 0 <-> non-zero
+		k := r.Intn(ns)
+		if rts[k] == 0 {
+			rts[k] = rates[r.Intn(len(rates))]
+		} else {
+			rts[k] = 0
+		}
+		bind(k)
+		b = append(b, "rebind", "rebind-other-rate")
+		if r.Intn(3) == 0 {
+			c.Ops = append(c.Ops, apiOp{K: "tick", Now: now}) // the rebound stream has sent nothing yet
+		}
+		send(1 + r.Intn(3))
+		ticks(1 + r.Intn(2))
+	}
 	b = append(b, fmt.Sprintf("streams-%d", ns))
 	if c.UL {
 		b = append(b, "use-latest")
@@ -788,7 +1025,13 @@ func main() {
 	}
 	napi := o.Scale(400, 4000)
 	for i := 0; i < napi; i++ {
-		c, b := genAPI(r)
+		var c *apiCase
+		var b []string
+		if i%4 == 3 {
+			c, b = genAPIRates(r)
+		} else {
+			c, b = genAPI(r)
+		}
 		b = decorateAPI(r, c, b)
 		if err := runAPI(c); err != nil {
 			fails = append(fails, cq.ImplFailure{Kind: "api-run", Detail: err.Error(), Case: c})
@@ -799,6 +1042,7 @@ func main() {
 	}
 	cq.Write(o, "core: one sender stream, 3..170 sends (frames of 1..4 packets, reordering, duplicates, sequence jumps, "+
 		"timestamp wrap/zero, clock steps) with reports anywhere, non-trivial = a report after at least one packet; "+
-		"api: SenderInterceptor with 1..3 SSRCs, bind/unbind/rebind, injected clock and ticker, non-trivial = a report with packet count > 0",
+		"api: SenderInterceptor with 1..4 SSRCs (StreamInfo variety, clock rates incl. 0 and corners; every 4th case: streams of different rates fed the same packets), "+
+		"bind/unbind/rebind, injected clock and ticker, non-trivial = a report with packet count > 0",
 		[]*cq.Set{core, api}, nil, fails)
 }
